@@ -355,7 +355,8 @@ func (c19) RunCase(c *core.Ctx) {
 		}
 		res := canonResult(out)
 		if len(out.Issues) > 0 {
-			res = obs.Multiset(out.Issues, func(ci obs.CI) string { return ci.Full() })
+			// whether a post-transform ran before another node failed depends on the visit order (tolerated): the values carried by issues are left out
+			res = obs.Multiset(out.Issues, func(ci obs.CI) string { return ci.Key + "|" + ci.Triple() + "|" + ci.Message + "|" + ci.Params })
 		}
 		key := fmt.Sprintf("%s|%x", mode, obs.Snapshot(input))
 		if prev, ok := firstResult[key]; ok && prev != res {
